@@ -483,6 +483,37 @@ def _panel_redefs():
     }
 
 
+def _bay_redefs():
+    def add_stiff(b):
+        b.add_bladestiff2d(ys=1.0, mu=1500., bf=0.04, fstack=[0., 90.], fplyt=pan.PLYT, flaminaprop=pan.M6, mf=3, nf=3)
+    return {
+        'mu': lambda b: setattr(b.panels[0], 'mu', 2300.),
+        'panel_load': lambda b: (setattr(b.panels[0], 'Nxx', -3.0e3), setattr(b.panels[1], 'Nxy', 0.4e3)),
+        'panel_plyt': lambda b: setattr(b.panels[1], 'plyt', 2 * pan.PLYT),
+        'panel_stack_inplace': lambda b: b.panels[0].stack.__setitem__(0, 30.),
+        'stiff_mu': lambda b: setattr(b.stiffeners[0], 'mu', 2100.),
+        'flange_plyt': lambda b: setattr(b.stiffeners[0].flange, 'plyt', 2 * pan.PLYT),
+        'flange_load': lambda b: setattr(b.stiffeners[0].flange, 'Nxx', -500.),
+        'beta': lambda b: setattr(b, 'beta', 5.1),
+        'aeromu': lambda b: setattr(b, 'aeromu', 0.5),
+        'skin_force': lambda b: b.forces_skin.append([0.3, 0.7, 0., 0., 4.]),
+        'add_stiffener': add_stiff,
+    }
+
+
+def _assembly_redefs():
+    return {
+        'p0_a': lambda a: setattr(a.panels[0], 'a', 2.4),
+        'p1_stack': lambda a: setattr(a.panels[1], 'stack', [45., -45., 0.]),
+        'p1_stack_inplace': lambda a: a.panels[1].stack.__setitem__(0, 55.),
+        'p0_load': lambda a: setattr(a.panels[0], 'Nxx', -2.5e3),
+        'p1_mu': lambda a: setattr(a.panels[1], 'mu', 900.),
+        'p0_flag': lambda a: setattr(a.panels[0], 'w1rx', 0.),
+        'p1_force': lambda a: a.panels[1].add_force(0.9, 0.1, 0., 2., 1., cte=True),
+        'p0_offset': lambda a: setattr(a.panels[0], 'offset', 0.2e-3),
+    }
+
+
 def _conecyl_redefs():
     return {
         'stack': lambda c: (setattr(c, 'stack', [0., 90., 90., 0.]), setattr(c, 'plyts', []), setattr(c, 'laminaprops', [])),
@@ -495,9 +526,12 @@ def _conecyl_redefs():
     }
 
 
-REDEFS = {'Panel/plate': _panel_redefs, 'Panel/cpanel': _panel_redefs, 'ConeCyl/clpt_donnell_bc1/alpha0': _conecyl_redefs,
+REDEFS = {'Panel/plate': _panel_redefs, 'Panel/cpanel': _panel_redefs, 'StiffPanelBay/b2d': _bay_redefs, 'StiffPanelBay/t2d': _bay_redefs,
+          'PanelAssembly/2plates-SSycte': _assembly_redefs, 'ConeCyl/clpt_donnell_bc1/alpha0': _conecyl_redefs,
           'ConeCyl/clpt_donnell_bc1/alpha0/ortho': lambda: {'ortho_toggle': _conecyl_redefs()['ortho_toggle']}}
 REDEF_OPS = {'Panel/plate': ['k0', 'kG0', 'kM', 'kA', 'fext', 'static', 'kT', 'fint', 'uvw@2', 'stress'],
+             'StiffPanelBay/b2d': ['k0', 'kG0', 'kM', 'kA', 'cA', 'fext'], 'StiffPanelBay/t2d': ['k0', 'kG0', 'kM', 'fext'],
+             'PanelAssembly/2plates-SSycte': ['k0', 'kG0', 'kM', 'k0_conn', 'kT', 'fint', 'fext'],
              'Panel/cpanel': ['k0', 'kM', 'kT', 'static'],
              'ConeCyl/clpt_donnell_bc1/alpha0': ['k0', 'fext', 'static', 'fint@1', 'kT@1', 'eig:lb'],
              'ConeCyl/clpt_donnell_bc1/alpha0/ortho': ['k0', 'static', 'eig:lb', 'fint@1']}
